@@ -101,6 +101,22 @@ E('C25', 'Starting versions 0..47 x 3 document worlds x single-cell deviations (
 E('C37', 'Texts of length <= 4/5 over {a,b,newline} x all non-overlapping patch sets x 5 builder '
          'compositions x every output sub-range, vs an independent forward-map reference.')
 
+CHECKS['C04'] = ('fault_enumeration', 'fault enumeration: every crossing of every seam of every (state, bundle)',
+  'For every (state, bundle) of five worlds: natural failures plus one injected exception at every '
+  'crossing of 5 seams (doc-action entry/return, rebuild_usercode, apply_auto_removes, '
+  'flush_calc_changes); after a raised bundle the dump, schema, a following Calculate and three '
+  'follow-up bundles must be exactly those of an engine that never saw the failure.', '§2 C04', HIST_NOTE)
+E('C26', 'All bundles of <= 2/3 actions over a temp-id alphabet (adds with ids None/-1/-2, updates, removes, '
+         'Ref/RefList values with known and unknown negative ids) on two tables referencing each other, '
+         'from 2 base states, vs a reference resolution of temporary ids; unknown ids must leave no trace.')
+E('C27', 'AddRecord/BulkAddRecord/ReplaceTableData x every id list of length <= 2/3 over {None,-1,-2,0,1,2,5,'
+         '10^6,10^6+1,True} x 5 table states; returned ids == new rows, distinct, fresh; invalid requests '
+         'rejected with the dump unchanged.')
+E('C28', 'Table contents x require x col_values x options x bulk length <= 2 for BulkAddOrUpdateRecord and '
+         'AddOrUpdateRecord vs a reference upsert written from the docstring.')
+E('C39', 'Choice/ChoiceList contents x saved filters x rename maps (swap, chain, merge, identity, unused, '
+         "''->z): simultaneous substitution on cells and that column's filters, nothing else changes.")
+
 PLANNED = {}
 
 
